@@ -22,7 +22,9 @@ import (
 	"net/http"
 	"net/http/httptest"
 	"os"
+	"os/signal"
 	"strings"
+	"syscall"
 
 	"github.com/ErdemOzgen/blackdagger/internal/frontend/middleware"
 	"github.com/ErdemOzgen/blackdagger/internal/zzverif/venv"
@@ -63,6 +65,12 @@ type Member struct {
 	Sep      string   `json:"sep_label"`
 	CredKind string   `json:"cred_kind"`
 	Group    string   `json:"cred_group"`
+	// family B (real assembled server, path spellings); empty for family A
+	Family    string `json:"family,omitempty"`
+	PathClass string `json:"path_class,omitempty"`
+	Variant   string `json:"path_variant,omitempty"`
+	Route     string `json:"route,omitempty"`
+	Via       string `json:"via,omitempty"` // direct | tcp
 }
 
 func (m Member) String() string {
@@ -150,6 +158,24 @@ func (ch *chain) serve(m Member) (o outcome) {
 	return o
 }
 
+// credClassOf: credential class for signatures — what the header looks like
+// relative to the *configured* secrets (the enumerator's group label is
+// relative to default secrets when a mechanism is not configured).
+func credClassOf(m Member, cl class) string {
+	credClass := m.Group
+	switch {
+	case cl.CarriesBasic:
+		credClass = "basic-secret"
+	case cl.CarriesToken:
+		credClass = "token-secret"
+	case strings.HasPrefix(m.Group, "basic-secret") || m.Group == "partial-basic":
+		credClass = "wrong-basic-credentials"
+	case strings.HasPrefix(m.Group, "token-secret") || m.Group == "partial-token":
+		credClass = "wrong-token"
+	}
+	return credClass
+}
+
 type checker struct {
 	res     *vlib.Result
 	fl      *vlib.Flags
@@ -171,20 +197,7 @@ func (c *checker) check(ch *chain, m Member) {
 	if authOn && m.Auth != nil && cl.APIPath {
 		res.Nontrivial(vlib.Hash(m.Cfg.String(), m.Method, m.Target, strings.Join(m.Auth, "\x01")))
 	}
-	// credential class for signatures: what the header looks like relative to
-	// the *configured* secrets (the enumerator's group label is relative to
-	// default secrets when a mechanism is not configured).
-	credClass := m.Group
-	switch {
-	case cl.CarriesBasic:
-		credClass = "basic-secret"
-	case cl.CarriesToken:
-		credClass = "token-secret"
-	case strings.HasPrefix(m.Group, "basic-secret") || m.Group == "partial-basic":
-		credClass = "wrong-basic-credentials"
-	case strings.HasPrefix(m.Group, "token-secret") || m.Group == "partial-token":
-		credClass = "wrong-token"
-	}
+	credClass := credClassOf(m, cl)
 	sig := func(kind string) string {
 		return fmt.Sprintf("C17/%s/cfg=%s/scheme=%s/cred=%s", kind, m.Cfg.Kind, m.Scheme, credClass)
 	}
@@ -265,6 +278,11 @@ func (c *checker) check(ch *chain, m Member) {
 }
 
 func main() {
+	// server.Serve (family B) installs its own SIGINT/SIGTERM handling, which
+	// would otherwise keep this process alive on those signals
+	sigc := make(chan os.Signal, 1)
+	signal.Notify(sigc, syscall.SIGINT, syscall.SIGTERM, syscall.SIGHUP, syscall.SIGQUIT)
+	go func() { <-sigc; os.Exit(130) }()
 	fl := vlib.ParseFlags()
 	res := vlib.New("c17")
 	c := &checker{res: res, fl: fl, sampled: map[string]bool{}, vio: map[string]bool{}}
@@ -282,6 +300,16 @@ func main() {
 			os.Exit(2)
 		}
 		m := rp.Replay
+		if m.Family == "real" {
+			c.replayReal(m, family(true))
+			for _, v := range res.Violations {
+				fmt.Fprintf(os.Stderr, "  %s\n", v.Signature)
+			}
+			fmt.Fprintf(os.Stderr, "  %d violation(s)\n", len(res.Violations))
+			res.Write(fl.Out)
+			os.RemoveAll(fl.Work)
+			return
+		}
 		ch := build(m.Cfg)
 		o := ch.serve(m)
 		c.check(ch, m)
@@ -319,6 +347,7 @@ func main() {
 			}
 		}
 	}
+	c.runReal(fam, &block)
 	res.Bounds["configurations"] = len(fam.configs)
 	res.Bounds["headers_per_configuration_max"] = maxHdrs
 	res.Bounds["basic_secrets"] = fmt.Sprint(fam.basics)
